@@ -25,6 +25,10 @@ TCW = T([0, 0], [0, 1], [1, 0])
 LSH = Poly([[0, 0], [2, 0], [2, 1], [1, 1], [1, 2], [0, 2]])
 # square with a square hole; kept away from the origin (a sampler that leaves rows at (0,0) must not be excused)
 HOLE = Poly([[0.5, 0.25], [3.5, 0.25], [3.5, 3.25], [0.5, 3.25]], holes=[[[1.5, 1.25], [2.5, 1.25], [2.5, 2.25], [1.5, 2.25]]])
+# ... and with TWO holes (the edge bookkeeping of the boundary has to get past the first hole)
+HOLE2 = Poly([[0.5, 0.25], [4.5, 0.25], [4.5, 3.25], [0.5, 3.25]],
+             holes=[[[1.0, 0.75], [2.0, 0.75], [2.0, 1.75], [1.0, 1.75]], [[2.75, 1.5], [4.0, 1.75], [3.5, 2.75]]])
+IN_P_CW = P([-0.3, -0.3], [-0.2, 0.3], [0.3, -0.2])       # IN_P with clockwise corners
 # parameter dependent
 C_MOVE = C([aff(0, t=1), 0], 0.5)
 C_GROW = C([0, 0], aff(0.5, t=0.5))
@@ -89,9 +93,9 @@ def _seconds2(tier):
 
 
 def leaves2(tier):
-    out = [SQ, SQ_CW, SLP, P_R60, C1, C2, TR, TSL, LSH, HOLE, C_MOVE, C_GROW, SQ_MOVE, SQ_GROW, TR_GROW]
+    out = [SQ, SQ_CW, SLP, P_R60, C1, C2, TR, TSL, TCW, LSH, HOLE, HOLE2, C_MOVE, C_GROW, SQ_MOVE, SQ_GROW, TR_GROW]
     if tier == "thorough":
-        out += [SLP_CW, THIN, RECT, C3, TCW, C_BOTH, SLP_T, TR_MOVE, C_ST]
+        out += [SLP_CW, THIN, RECT, C3, C_BOTH, SLP_T, TR_MOVE, C_ST]
     return out
 
 
@@ -115,7 +119,9 @@ def booleans2(tier):
     out += [Cut(SQ, IN_C, contained=True), Cut(SQ, IN_C), Cut(C1, IN_P, contained=True),
             U(SQ, FAR_C, disjoint=True), U(SQ, FAR_C), U(C1, FAR_P, disjoint=True),
             Cut(SQ, G_CMOVE, contained=True), U(SQ_MOVE, G_C), N(C_GROW, SQ), Cut(C1, SQ), N(C1, SQ),
-            Cut(LSH, G_C), U(TR, G_P)]
+            Cut(LSH, G_C), U(TR, G_P),
+            # clockwise operands inside Boolean combinations (their own membership test filters the composite's samples)
+            Cut(C1, IN_P_CW, contained=True), N(TCW, G_C), Cut(SQ, T([0.2, 0.2], [0.3, 0.8], [0.8, 0.3]))]
     if tier == "thorough":
         out += [Cut(SLP, IN_C), U(SLP, FAR_P, disjoint=True), Cut(C_GROW, IN_P), N(SQ_MOVE, C1),
                 Cut(HOLE, C([2.0, 0.65], 0.7)), U(LSH, C([2, 2], 0.8)), N(LSH, C([1, 1], 0.9)),
